@@ -40,11 +40,25 @@ def names(draw, prefixes):
     return draw(st.lists(st.sampled_from(NAME_ALPHA), min_size=1, max_size=6).map("".join).filter(lambda s: text_ok(s, prefixes)))
 
 
+# names the loader itself hands out to filters without a name comment
+SPECIAL_NAMES = ["Unnamed rule 1", "Unnamed rule 2", "Unnamed rule 3", "Unnamed rule 10", "unnamed rule 1", "Unnamed rule"]
+LONG_WORDS = ["word", "another", "https://example.org/" + "path/" * 18, "a-b-c-d", "x", "\u65e5\u672c\u8a9e" * 30, "semi;colon", "tab\there",
+              "double  blank", "(paren)", "end.", "1234567890" * 9, "-", "\u00e9t\u00e9"]
+
+
+@st.composite
+def long_text(draw, prefixes):
+    """A description well beyond one line (> 76 characters)."""
+    ws = draw(st.lists(st.sampled_from(LONG_WORDS), min_size=8, max_size=30))
+    s = " ".join(ws).strip()
+    return s if text_ok(s, prefixes) and len(s) > 76 else "a long description " * 6 + "end"
+
+
 @st.composite
 def history(draw):
     prefixes = draw(st.sampled_from(PREFIXES))
     pf = prefixes or ("# Filter: ", "# Description: ")
-    pool = draw(st.lists(names(pf), min_size=3, max_size=5, unique=True))
+    pool = draw(st.lists(st.one_of(names(pf), names(pf), st.sampled_from(SPECIAL_NAMES)), min_size=3, max_size=5, unique=True))
     defs = [draw(F.definition(F.MILD)) for _ in range(3)]
     ops = []
     for _ in range(draw(st.integers(1, 12))):
@@ -56,7 +70,7 @@ def history(draw):
             op["newname"] = draw(st.sampled_from(pool))
         if k == "replace":
             op["newname"] = draw(st.sampled_from(pool + [None]))
-            op["description"] = draw(st.one_of(st.none(), names(pf), names(pf), names(pf)))
+            op["description"] = draw(st.one_of(st.none(), names(pf), names(pf), names(pf), long_text(pf)))
         if k == "move":
             op["dir"] = draw(st.sampled_from(["up", "down"]))
         ops.append(op)
@@ -192,17 +206,23 @@ def grid_histories():
     """Every set of 1-4 filters in which each filter is plain / described /
     disabled / described and disabled, under every marker-prefix pair."""
     import itertools
+    long_desc = "see https://example.org/" + "docs/" * 16 + " for the well-known  rules - and\ttheir exceptions " + "\u65e5\u672c\u8a9e" * 28
     for prefixes in PREFIXES:
-        for n in (1, 2, 3, 4):
-            for states in itertools.product(range(4), repeat=n):
-                ops = []
-                for i, stt in enumerate(states):
-                    ops.append({"op": "add", "name": GRID_NAMES[i], "def": i % 2})
-                    if stt & 1:
-                        ops.append({"op": "replace", "name": GRID_NAMES[i], "newname": None, "def": i % 2, "description": "about %d \u20ac" % i})
-                    if stt & 2:
-                        ops.append({"op": "disable", "name": GRID_NAMES[i]})
-                yield {"prefixes": prefixes, "defs": GRID_DEFS, "ops": ops}
+        variants = [(GRID_NAMES, "about %d \u20ac")]
+        if prefixes in (None, PREFIXES[1]):
+            # the loader's own names for nameless filters, not in their own positions; descriptions longer than a line
+            variants += [(["Unnamed rule 3", "Unnamed rule 1", "Unnamed rule 2", "Unnamed rule 1 "[:-1] + "0"], "about %d \u20ac"), (GRID_NAMES, long_desc + " %d")]
+        for gnames, desc in variants:
+            for n in (1, 2, 3, 4):
+                for states in itertools.product(range(4), repeat=n):
+                    ops = []
+                    for i, stt in enumerate(states):
+                        ops.append({"op": "add", "name": gnames[i], "def": i % 2})
+                        if stt & 1:
+                            ops.append({"op": "replace", "name": gnames[i], "newname": None, "def": i % 2, "description": desc % i})
+                        if stt & 2:
+                            ops.append({"op": "disable", "name": gnames[i]})
+                    yield {"prefixes": prefixes, "defs": GRID_DEFS, "ops": ops}
 
 
 def grid_worker(arg):
